@@ -7,9 +7,10 @@ From P Require Import C13_gen C13_model C13_proofs_index C13_proofs_box C13_proo
 Import ListNotations.
 
 (* ------------------------------------------------------------------ (4) from_molecule(rotate=False) *)
+(* holds whichever point the box is centred on (pinned commit: centre of nuclear charge; repaired: middle of the extent) *)
 Theorem box_margin_partial : forall zs xs spacing ext x, (0 < spacing)%R -> In x xs ->
-  (ext - (com_axis ROps zs xs - mid_axis xs) <= margin_lo ROps zs xs spacing ext x /\
-   (ext - spacing) + (com_axis ROps zs xs - mid_axis xs) <= margin_hi ROps zs xs spacing ext x)%R.
+  (ext - Rabs (com_axis ROps zs xs - mid_axis xs) <= margin_lo ROps zs xs spacing ext x /\
+   (ext - spacing) - Rabs (com_axis ROps zs xs - mid_axis xs) <= margin_hi ROps zs xs spacing ext x)%R.
 Proof. exact box_margin_partial_lemma. Qed.
 Print Assumptions box_margin_partial.
 
@@ -19,13 +20,7 @@ Theorem box_contains_nuclei_symmetric_partial : forall zs xs spacing ext x, (0 <
 Proof. exact box_contains_symmetric_lemma. Qed.
 Print Assumptions box_contains_nuclei_symmetric_partial.
 
-Theorem box_refuted :
-  let zs := [1; 80]%R in let xs := [0; 10]%R in let spacing := (1 / 5)%R in
-  (Forall (fun z => 0 < z) zs /\ 0 < spacing /\ In 0 xs)%R /\
-  (margin_lo ROps zs xs spacing 5 0 = 10 / 81 /\ 10 / 81 < 5 - spacing /\
-   margin_lo ROps zs xs spacing 2 0 = 10 - 800 / 81 - 3 /\ 10 - 800 / 81 - 3 < 0)%R.
-Proof. exact box_refuted_lemma. Qed.
-Print Assumptions box_refuted.
+(* full strength: box_contains_nuclei in C13_props_boxfull.v (refutation for the pinned commit: C13_refuted_box.v) *)
 
 (* ------------------------------------------------------------------ (5) closest_point *)
 Theorem closest_is_nearest3_partial : forall o0 o1 o2 d0 d1 d2 n0 n1 n2 p0 p1 p2,
@@ -49,13 +44,7 @@ Theorem closest_is_nearest2_partial : forall o0 o1 d0 d1 n0 n1 p0 p1,
 Proof. exact closest_is_nearest2_lemma. Qed.
 Print Assumptions closest_is_nearest2_partial.
 
-Theorem closest_refuted :
-  (closest3 ROps (0, 0, 0) (-1) 1 1 3 3 3 (node3 (0, 0, 0) (-1) 1 1 1 0 0) = (-1, 0, 0, -9)%Z /\
-   coordinates_to_index3 3 3 3 1 0 0 = 9%Z) /\
-  (closest3 ROps (0, 0, 0) 1 1 1 3 4 5 (0, 0, 7) = (0, 0, 7, coordinates_to_index3 3 4 5 0 1 2)%Z /\
-   dist2_3 (0, 0, 7) (node3 (0, 0, 0) 1 1 1 0 0 4) < dist2_3 (0, 0, 7) (node3 (0, 0, 0) 1 1 1 0 1 2))%R.
-Proof. exact closest_refuted_lemma. Qed.
-Print Assumptions closest_refuted.
+(* full strength: closest_is_nearest in C13_props_closestfull.v (refutation for the pinned commit: C13_refuted_closest.v) *)
 
 (* ------------------------------------------------------------------ (6, partial) cube data block *)
 Theorem cube_data_roundtrip_partial : forall (A : Type) (data : list A),
